@@ -99,7 +99,6 @@ func (sp *Space) EnumerateFocused(max int, keep func(kind, dep, target, option s
 
 var _ = 0
 
-
 // reachablePkgs computes package-level reachability from the root through requirement edges.
 func reachablePkgs(root string, edges [][2]string) map[string]bool {
 	r := map[string]bool{root: true}
@@ -467,15 +466,17 @@ var PyPISat = map[string]map[string]bool{
 	"":         {"1.0": true, "2.0": true, "3.0rc1": true},
 }
 
-// PyPIMarkers: marker decorations with their truth without extras and with extra x.
+// PyPIMarkers: marker decorations with their truth as a function of the requested extras (hand table).
 var PyPIMarkers = []struct {
-	Text         string
-	Plain, WithX bool
+	Text  string
+	Truth func(extras map[string]bool) bool
 }{
-	{`python_version >= "3"`, true, true},
-	{`python_version < "3"`, false, false},
-	{`extra == "x"`, false, true},
-	{`os_name == "nt" or sys_platform == "linux"`, true, true},
+	{`python_version >= "3"`, func(map[string]bool) bool { return true }},
+	{`python_version < "3"`, func(map[string]bool) bool { return false }},
+	{`extra == "x"`, func(e map[string]bool) bool { return e["x"] }},
+	{`os_name == "nt" or sys_platform == "linux"`, func(map[string]bool) bool { return true }},
+	{`"x" == extra`, func(e map[string]bool) bool { return e["x"] }},
+	{`extra == "y"`, func(e map[string]bool) bool { return e["y"] }},
 }
 
 func pypiDef() sysDef {
@@ -489,7 +490,7 @@ func pypiDef() sysDef {
 	for _, m := range PyPIMarkers {
 		d.decor = append(d.decor, "marker:"+m.Text)
 	}
-	d.decor = append(d.decor, "extras:x")
+	d.decor = append(d.decor, "extras:x", "extras:y")
 	// a distribution does not require itself (other packages may require the root: cycles through the root)
 	d.valid = func(u *Universe) bool {
 		for _, v := range u.Vers {
@@ -505,7 +506,7 @@ func pypiDef() sysDef {
 		if strings.HasPrefix(dc, "marker:") {
 			r.Env = dc[7:]
 		} else {
-			r.Extras = "x"
+			r.Extras = dc[7:]
 		}
 	}
 	return d
@@ -522,6 +523,7 @@ func PyPISpaces() []*Space {
 		{vi("a", "2.0"), Req{Pkg: "c", Ver: "==1.0"}},
 		{vi("b", "2.0"), Req{Pkg: "c", Ver: "!=1.0"}},
 		{vi("b", "1.0"), Req{Pkg: "c", Ver: ">=1.0"}},
+		{vi("c", "1.0"), Req{Pkg: "a", Ver: ">=1.0", Env: `extra == "x"`}},
 	}
 	return []*Space{newSpace(d, "empty", nil), newSpace(d, "conflict", conflict)}
 }
